@@ -348,4 +348,13 @@ func init() {
 		profiles["history"].Tweak(r, c)
 		c.Liveness = false // "at the update revision" is judged by content, which the rounding changes
 	}}
+
+	// claimsrepair: orphan pods built without their claim volumes; adoption leads to the
+	// storage-repair path of UpdateStatefulPod (the API server forbids the resulting
+	// spec change for ever, as upstream, so no liveness is demanded)
+	profiles["claimsrepair"] = &Profile{Name: "claimsrepair", Tweak: func(r *PRNG, c *Config) {
+		profiles["claims"].Tweak(r, c)
+		c.Liveness = false
+		c.Weights["mkpod"] = 10
+	}}
 }
